@@ -155,7 +155,7 @@ func race(file string, timeout int, only string) solveResult {
 	defer cancel()
 	type r struct {
 		res, solver, out string
-		secs            float64
+		secs             float64
 	}
 	ch := make(chan r, len(solvers))
 	n := 0
